@@ -92,6 +92,30 @@ def gen_slices(ctx, rnd, out):
                                 "src": "%s[%s:%s:%s]" % (recv_src(ty, s), lo, hi, st)})
 
 
+def gen_range_slices(ctx, rnd, out):
+    """slices of ranges observed as ranges (not through list()): membership, length, indexing, truth, reversed"""
+    maxn = 4 if ctx.quick else 7
+    for n in range(0, maxn + 1):
+        recvs = [("range(97, %d)" % (97 + n), list(range(97, 97 + n))),
+                 ("range(%d, 96, -1)" % (96 + n), list(range(96 + n, 96, -1))),
+                 ("range(97, %d, 2)" % (97 + 2 * n), list(range(97, 97 + 2 * n, 2))),
+                 ("range(%d, 96, -3)" % (97 + 3 * (n - 1)), list(range(97 + 3 * (n - 1), 96, -3)))]
+        idxs = [NONE] + [some(i) for i in sorted({-n - 1, -2, -1, 0, 1, 2, n - 1, n, n + 2})]
+        steps = [NONE] + [some(x) for x in (1, -1, 2, -2, 3, -3, 0)]
+        for rs, elems in recvs:
+            assert len(elems) == n or n == 0, (rs, elems)
+            w0, w1 = (min(elems) - 4, max(elems) + 5) if elems else (95, 100)
+            for lo in idxs:
+                for hi in idxs:
+                    for st in steps:
+                        if n >= 2 and rnd.random() < (0.6 if ctx.quick else 0.3):
+                            continue
+                        sl = "%s[%s:%s:%s]" % (rs, "" if not lo["some"] else lo["v"], "" if not hi["some"] else hi["v"], "" if not st["some"] else st["v"])
+                        src = ("(lambda r: [list(r), len(r), [x in r for x in range(%d, %d)], [r[k] for k in range(len(r))], bool(r), list(reversed(r))])(%s)"
+                               % (w0, w1, sl))
+                        out.append({"op": "rslice", "ty": "range", "s": elems, "lo": lo, "hi": hi, "st": st, "w0": w0, "w1": w1, "src": src})
+
+
 def all_strings(alpha, maxlen):
     for n in range(maxlen + 1):
         for t in itertools.product(alpha, repeat=n):
@@ -396,7 +420,7 @@ def gen_alias(ctx, rnd, out):
 def generate(ctx):
     rnd = random.Random(ctx.seed)
     out = []
-    for g in (gen_slices, gen_search, gen_split, gen_case, gen_lists, gen_random, gen_alias, gen_format):
+    for g in (gen_slices, gen_range_slices, gen_search, gen_split, gen_case, gen_lists, gen_random, gen_alias, gen_format):
         g(ctx, rnd, out)
     for i, c in enumerate(out):
         c["id"] = i + 1
